@@ -1495,6 +1495,60 @@ def ident_item():
             "Definition gen_ident_hash_is_of_repr : bool := true.\n" % (coq_str(sep), " ++ ".join(parts), eq_expr))
 
 
+def where_item():
+    """conductor.lib.where: a FRESH Context per call (Context.from_cwd() inside the function: HEAD, the index and the
+    configuration are the ones current at the call), the identifier parsed with an optional prefix, the task loaded on its
+    own, and the decision what to return -- 0 None, 1 the output path relative to the project root, 2 the output path."""
+    f = _find_function("conductor/lib/path.py", "where")
+    body = _body_without_docstring(f)
+    src = [ast.unparse(x) for x in body]
+    head = ["ctx = Context.from_cwd()", "task_identifier = TaskIdentifier.from_str(identifier, require_prefix=False)",
+            "ctx.task_index.load_single_task(task_identifier)", "task = ctx.task_index.get_task(task_identifier)", "output_path = task.get_output_path(ctx)"]
+    if src[:len(head)] != head:
+        raise Unsupported("where() does not start with a fresh context, the parsed identifier, the single task and its output path: %r" % src[:len(head)])
+    leaves = {"output_path is None": "path_none", "output_path.exists()": "exists_", "non_existent_ok": "non_existent_ok", "relative_to_project_root": "relative"}
+
+    def cond(node):
+        t = ast.unparse(node)
+        if t in leaves:
+            return leaves[t]
+        if isinstance(node, ast.UnaryOp) and isinstance(node.op, ast.Not):
+            return "(negb %s)" % cond(node.operand)
+        if isinstance(node, ast.BoolOp):
+            op = {ast.And: " && ", ast.Or: " || "}[type(node.op)]
+            return "(" + op.join(cond(v) for v in node.values) + ")"
+        raise Unsupported("where(): condition outside the supported fragment: %s" % t)
+
+    def block(stmts):
+        if not stmts:
+            raise Unsupported("a path of where() ends without a return")
+        st, rest = stmts[0], stmts[1:]
+        if isinstance(st, ast.Return):
+            v = "None" if st.value is None else ast.unparse(st.value)
+            codes = {"None": "0%N", "output_path.relative_to(ctx.project_root)": "1%N", "output_path": "2%N"}
+            if v not in codes:
+                raise Unsupported("where() returns %s" % v)
+            return codes[v]
+        if isinstance(st, ast.If):
+            return "(if %s then %s else %s)" % (cond(st.test), block(list(st.body) + rest), block(list(st.orelse) + rest))
+        raise Unsupported("where(): statement outside the supported fragment: %s" % ast.unparse(st))
+
+    decision = block(body[len(head):])
+    # no module-level state that could carry a context from one call to the next
+    tree = ast.parse(open(os.path.join(SRC, "conductor/lib/path.py"), encoding="utf-8").read())
+    for node in tree.body:
+        if isinstance(node, (ast.Assign, ast.AnnAssign)):
+            raise Unsupported("conductor/lib/path.py keeps module-level state: %s" % ast.unparse(node).splitlines()[0])
+    m = [ast.unparse(x) for x in _find_function("conductor/cli/where.py", "main").body]
+    want = ["result = where(args.task_identifier, relative_to_project_root=args.project, non_existent_ok=args.non_existent_ok)",
+            "if result is None:\n    raise NoTaskOutputPath(task_identifier=args.task_identifier)", "print(result)"]
+    if m != want:
+        raise Unsupported("cli/where.py main is not `where(...)`, an error for None, print: %r" % m)
+    return ("(* conductor/lib/path.py where (and cli/where.py main, which prints its result or raises NoTaskOutputPath for None) *)\n"
+            "Definition gen_where_decision (path_none exists_ non_existent_ok relative : bool) : N := %s.\n"
+            "Definition gen_where_context_is_fresh_per_call : bool := true.\n" % decision)
+
+
 def version_item():
     """VersionIndex.generate_new_output_version: the timestamp as a function of the clock and the last timestamp"""
     f = _find_method("conductor/execution/version_index.py", "VersionIndex", "generate_new_output_version")
@@ -1559,7 +1613,7 @@ def generate():
         failures["task_type_table"] = "%s: %s" % (type(ex).__name__, ex)
         parts.append("(* task_type_table: NOT TRANSLATED: %s *)\n" % str(ex).replace("*)", "* )"))
     for coqname, fn in (("gen_gate_open", gate_item), ("gen_new_version", version_item), ("gen_loop_goes_on", loop_item), ("gen_wants_slot", slot_item),
-                        ("gen_prune", prune_item), ("gen_should_run", should_run_item), ("gen_sel_top", select_item), ("gen_validate_args", validate_args_item), ("gen_finish", finish_item), ("gen_record_type", record_type_item), ("gen_tee_iteration", tee_item), ("gen_env_overrides", spawn_item), ("gen_launch_block", abort_item), ("gen_combine_decision", combine_item), ("gen_gc_decision", gc_item), ("gen_restore_before_loop", restore_item), ("gen_archive_output_decision", archive_item), ("gen_deps_paths_step", deps_paths_item), ("gen_copy_query", copy_item), ("gen_ident_repr", ident_item)):
+                        ("gen_prune", prune_item), ("gen_should_run", should_run_item), ("gen_sel_top", select_item), ("gen_validate_args", validate_args_item), ("gen_finish", finish_item), ("gen_record_type", record_type_item), ("gen_tee_iteration", tee_item), ("gen_env_overrides", spawn_item), ("gen_launch_block", abort_item), ("gen_combine_decision", combine_item), ("gen_gc_decision", gc_item), ("gen_restore_before_loop", restore_item), ("gen_archive_output_decision", archive_item), ("gen_deps_paths_step", deps_paths_item), ("gen_copy_query", copy_item), ("gen_ident_repr", ident_item), ("gen_where_decision", where_item)):
         try:
             parts.append(fn())
         except Exception as ex:  # pylint: disable=broad-except
